@@ -3,10 +3,17 @@ import SodiumModel.Model.Stream
 import SodiumModel.Spec.Chacha
 import SodiumModel.Spec.Salsa
 import SodiumModel.Model.CoresRef
+import SodiumModel.Model.ChachaSimd
 /-
   The block/core functions passed to the driver models of `Model/Stream.lean` are the C-structured
   reference models of `Model/CoresRef.lean` (chacha20_ref.c, core_salsa_ref.c, core_hsalsa20_ref2.c,
   core_hchacha20.c); `Properties/C03Cores.lean` proves them equal to `Spec.Chacha` / `Spec.Salsa`.
+
+  Every ChaCha20 operation is ADDITIONALLY run through the AVX2-structured model of the dolbeau code
+  (`Model/ChachaSimd.lean`: u8.h → u4.h → u1.h → u0.h over the modelled intrinsics; the implementation this
+  host selects) and, up to 4 KiB, through the SSSE3-structured one; if either differs from the
+  reference-structured model the line is answered `MODEL-DISAGREE` (which the runner reports as a
+  violation). `Properties/C03Simd.lean` proves they never differ.
 -/
 namespace Sodium.Driver.C03
 open Sodium Sodium.Model Sodium.Driver Sodium.Spec Sodium.Model.CoresRef
@@ -22,6 +29,12 @@ def chachaBi (key nonce12 : Bytes) : BlockFn :=
 def salsaS (rounds : Nat) (key nonce8 : Bytes) : SalsaBlockFn := fun ctr =>
   crypto_core_salsa (nonce8.take 8 ++ ctr) key none rounds
 
+/-- cross-check of the reference-structured result against the SIMD-structured models -/
+def xcheck (ref : Bytes) (avx2r : Unit → Bytes) (ssse3r : Unit → Bytes) : String :=
+  if avx2r () != ref then "MODEL-DISAGREE"
+  else if ref.length ≤ 4096 && ssse3r () != ref then "MODEL-DISAGREE"
+  else toHex ref
+
 def u64? (s : String) : Option UInt64 := do
   let n ← s.toNat?
   if n < 2 ^ 64 then some (UInt64.ofNat n) else none
@@ -30,29 +43,40 @@ def handle (op : String) (args : List String) : Option String :=
   match op, args with
   | "stream.chacha20", [len, n, k] => do
     let len ← parseNat? len; let n ← ofHex n; let k ← ofHex k
-    some (toHex (chacha_stream (chachaB k n) len))
+    some (xcheck (chacha_stream (chachaB k n) len)
+      (fun _ => ChachaSimd.avx2.stream_ref len n k) (fun _ => ChachaSimd.ssse3.stream_ref len n k))
   | "stream.chacha20_xor_ic", [m, n, ic, k] => do
     let m ← ofHex m; let n ← ofHex n; let ic ← u64? ic; let k ← ofHex k
-    some (toHex (chacha_xor_ic (chachaB k n) ic m))
+    some (xcheck (chacha_xor_ic (chachaB k n) ic m)
+      (fun _ => ChachaSimd.avx2.stream_ref_xor_ic (zeros m.length) m n ic k)
+      (fun _ => ChachaSimd.ssse3.stream_ref_xor_ic m m n ic k))
   | "stream.chacha20_ietf", [len, n, k] => do
     let len ← parseNat? len; let n ← ofHex n; let k ← ofHex k
-    some (toHex (chacha_ietf_ext_xor_ic (chachaBi k n) (load32_le n) 0 (zeros len)))
+    some (xcheck (chacha_ietf_ext_xor_ic (chachaBi k n) (load32_le n) 0 (zeros len))
+      (fun _ => ChachaSimd.avx2.stream_ietf_ext_ref len n k) (fun _ => ChachaSimd.ssse3.stream_ietf_ext_ref len n k))
   | "stream.chacha20_ietf_xor_ic", [m, n, ic, k] => do
     let m ← ofHex m; let n ← ofHex n; let ic ← parseNat? ic; let k ← ofHex k
     if ic ≥ 2 ^ 32 then some badArgs else
     match chacha_ietf_xor_ic (chachaBi k n) (load32_le n) (UInt32.ofNat ic) m with
     | .misuse => some "misuse"
-    | .ok o => some (toHex o)
+    | .ok o => some (xcheck o
+        (fun _ => ChachaSimd.avx2.stream_ietf_ext_ref_xor_ic (zeros m.length) m n (UInt32.ofNat ic) k)
+        (fun _ => ChachaSimd.ssse3.stream_ietf_ext_ref_xor_ic m m n (UInt32.ofNat ic) k))
   | "stream.ietf_guard", [mlen, ic] => do
     let mlen ← u64? mlen; let ic ← parseNat? ic
     if ic ≥ 2 ^ 32 ∨ mlen.toNat ≤ 4096 then some badArgs else
     some (if ietfGuardFails (UInt32.ofNat ic) mlen then "misuse" else "proceeds")
   | "stream.xchacha20", [len, n, k] => do
     let len ← parseNat? len; let n ← ofHex n; let k ← ofHex k
-    some (toHex (chacha_stream (chachaB (crypto_core_hchacha20 (n.take 16) k none) (n.drop 16)) len))
+    let k2 := crypto_core_hchacha20 (n.take 16) k none
+    some (xcheck (chacha_stream (chachaB k2 (n.drop 16)) len)
+      (fun _ => ChachaSimd.avx2.stream_ref len (n.drop 16) k2) (fun _ => ChachaSimd.ssse3.stream_ref len (n.drop 16) k2))
   | "stream.xchacha20_xor_ic", [m, n, ic, k] => do
     let m ← ofHex m; let n ← ofHex n; let ic ← u64? ic; let k ← ofHex k
-    some (toHex (chacha_xor_ic (chachaB (crypto_core_hchacha20 (n.take 16) k none) (n.drop 16)) ic m))
+    let k2 := crypto_core_hchacha20 (n.take 16) k none
+    some (xcheck (chacha_xor_ic (chachaB k2 (n.drop 16)) ic m)
+      (fun _ => ChachaSimd.avx2.stream_ref_xor_ic (zeros m.length) m (n.drop 16) ic k2)
+      (fun _ => ChachaSimd.ssse3.stream_ref_xor_ic m m (n.drop 16) ic k2))
   | "stream.salsa20", [len, n, k] => do
     let len ← parseNat? len; let n ← ofHex n; let k ← ofHex k
     some (toHex (salsa_stream (salsaS 20 k n) len))
